@@ -125,7 +125,12 @@ def _expr(fx, x, recv_lid, arg_lids):
 POINTER = "bytecode::heap::Pointer"
 
 
-def cell_paths(fx, path, tname, name, kind):
+def arity_paths(fx, tname, name, n_args):
+    """the dispatch entry executed for a primitive receiver and `n_args` integer arguments"""
+    return cell_paths(fx, None, tname, name, "Boolean" if tname == "boolean" else "Integer", n_args=n_args)
+
+
+def cell_paths(fx, path, tname, name, kind, n_args=1):
     """Execute the VM's method dispatch symbolically for one cell: a primitive receiver of the table's kind,
     a concrete method name, one argument of the given kind with a symbolic payload. Everything is inlined
     (the common entry point dispatch_method is used, so a spelling that is canonicalised before the tables is
@@ -139,7 +144,8 @@ def cell_paths(fx, path, tname, name, kind):
     rk = {"integer": "Integer", "boolean": "Boolean", "null": "Null"}[tname]
     recv = ("ctor", POINTER, rk, () if rk == "Null" else (("0", ("var", "receiver")),))
     # dispatch_method(program, state, receiver_pointer, method_name, argument_pointers) — by position
-    args = [("var", "program"), ("var", "state"), recv, L(name), ("app", "array", (arg,))]
+    argv = (arg,) if n_args == 1 else tuple(("ctor", POINTER, kind, (("0", ("var", "argument%d" % i)),)) for i in range(n_args))
+    args = [("var", "program"), ("var", "state"), recv, L(name), ("app", "array", argv)]
     if len(b["params"]) != 5:
         raise ValueError("dispatch_method has %d parameters" % len(b["params"]))
     res = ex.run_body(b, args, State())
@@ -245,23 +251,39 @@ def _tables(ck, fx, cg, feeny=False, rule="R9.table"):
              ("boolean", A.get("dispatch_boolean"), set(BOOL_LOGIC) | set(EQ)),
              ("null", A.get("dispatch_null"), set(EQ))]
     total_cells = 0
+    entry_b = fx.body(A.get("dispatch_method"))
     for tname, path, need_names in specs:
         b = fx.body(path)
-        if not ck.anchor(rule, path, b):
-            continue
-        ck.fn(path)
-        ms = [m for m in find_matches(b) if peel(m["scrut"]).get("k") == "Tup"]
-        if not ck.anchor(rule, "%s: match on (name, argument)" % tname, ms or None):
-            continue
-        m = ms[0]
-        T = Table(fx, m)
-        if not T.ok or T.arity != 2:
-            ck.ob(rule, tname + "|shape", False, loc(m), "table is not a 2-component literal/variant match (unprovable)")
-            continue
-        T.enum_variants = [None, KINDS]
-        recv_lid = b["params"][0]["lid"] if tname != "null" and b["params"] and b["params"][0].get("k") == "Binding" else None
+        ms = [m for m in find_matches(b) if peel(m["scrut"]).get("k") == "Tup"] if b else []
+        T = Table(fx, ms[0]) if ms else None
+        if b is None or not ms or not T.ok or T.arity != 2:
+            # the table is not one `match (name, argument)` in a function of the known name (renamed, turned into an
+            # enum, split): the cells are still decided by executing the dispatch entry; the spellings to probe are S4's
+            # plus every string literal in the code the entry reaches
+            if not ck.anchor(rule, "dispatch entry " + A.get("dispatch_method"), entry_b):
+                continue
+            m = None
+            T = None
+            extra = set()
+            ds = cg.dids_of(A.get("dispatch_method"))
+            for d in (cg.reachable(ds) if ds else ()):
+                hb2 = fx.hir_by_did.get(d)
+                if hb2 is None or hb2["from_expansion"]:
+                    continue
+                for n2, _ in walk_body(hb2):
+                    if n2.get("k") == "Lit" and (n2.get("lit") or {}).get("t") == "str" and not user_macros_of(n2):
+                        v2 = n2["lit"]["v"]
+                        if isinstance(v2, str) and 0 < len(v2) <= 5 and " " not in v2:
+                            extra.add(v2)
+            lits0 = extra
+        else:
+            ck.fn(path)
+            m = ms[0]
+            T.enum_variants = [None, KINDS]
+            lits0 = T.lits[0]
+        recv_lid = b["params"][0]["lid"] if b and tname != "null" and b["params"] and b["params"][0].get("k") == "Binding" else None
         names = sorted(n_ for n_ in need_names if n_ in FML_SPELLINGS) + sorted(
-            l for l in T.lits[0] if isinstance(l, str) and l not in need_names) + [OTHER]
+            l for l in lits0 if isinstance(l, str) and l not in need_names and (T is not None or l not in ALL_S4_NAMES)) + [OTHER]
         if feeny:
             names = sorted(n_ for n_ in need_names if n_ not in FML_SPELLINGS)
         for name in names:
@@ -273,12 +295,15 @@ def _tables(ck, fx, cg, feeny=False, rule="R9.table"):
                     paths = cell_paths(fx, path, tname, name if name != OTHER else "\u27e8other\u27e9", kind)
                     succ, fail = classify_paths(paths)
                     ok, desc, why = judge(want, succ, fail)
-                    ck.ob(rule, key, ok, loc(m), "%s; S4: %s%s" % (desc, _show(want), "" if ok else " — " + why))
+                    ck.ob(rule, key, ok, loc(m) if m else "", "%s; S4: %s%s" % (desc, _show(want), "" if ok else " — " + why))
                     if len(ck.samples) < 14 and name in ("+", "/", "eq", "&", OTHER, "=="):
                         ck.sample({"rule": rule, "cell": key, "outcome": desc, "expected": _show(want)})
                     continue
                 except Exception as e:  # fall back to pattern-level evaluation
                     ck.note("symbolic evaluation of cell %s failed (%s: %s); falling back to first-match table evaluation" % (key, type(e).__name__, str(e)[:80]))
+                    if T is None:
+                        ck.ob(rule, key, False, "", "the cell cannot be evaluated through the dispatch entry (%s: %s) — unprovable" % (type(e).__name__, str(e)[:120]))
+                        continue
                 cell = (name, ("variant", kind))
                 ai = T.first_match(cell)
                 if ai is None or ai < 0:
@@ -296,6 +321,7 @@ def _tables(ck, fx, cg, feeny=False, rule="R9.table"):
 
 
 FML_SPELLINGS = {"+", "-", "*", "/", "%", "<=", ">=", "<", ">", "==", "!=", "&", "|"}
+ALL_S4_NAMES = set(INT_ARITH) | set(INT_CMP) | set(EQ) | set(BOOL_LOGIC)
 
 
 def run(ck, fx, cg, tier, feeny=False, rule="R9.table"):
